@@ -190,7 +190,9 @@ pub fn gen_program(r: &mut Rng) -> Vec<PItem> {
 /// Ok(true): compared and equal; Ok(false): the loader rejected the program (nothing to compare); Err: the accepted layout differs from the hand-written expansion
 pub fn check_c13_program(p: &Vec<PItem>) -> Result<bool, String> {
   let text = program_json(p);
-  let got = match load(&text) { Ok(l) => l, Err(_) => return Ok(false) };
+  let t2 = text.clone();
+  // a panic while loading is C14's business; for C13 the program is simply not comparable
+  let got = match std::panic::catch_unwind(move || load(&t2)) { Ok(Ok(l)) => l, Ok(Err(_)) => return Ok(false), Err(_) => return Ok(false) };
   let want = match expand_by_hand(p) { Some(w) => w, None => return Err(format!("the loader accepted a program that has no hand-written expansion (undefined alias / output alias not on the trigger side / letter without key / row too short): {}", text)) };
   if got.mappings.len() != want.len() { return Err(format!("{} mappings, the hand-written expansion has {} ({})", got.mappings.len(), want.len(), text)); }
   for (i, w) in want.iter().enumerate() { let g = &got.mappings[i]; if g.from != w.from || g.to != w.to || g.repeat != w.repeat {
